@@ -1,8 +1,163 @@
-/- driver ops for the Macros model (filled in when the module is ported) -/
+/-
+Driver ops for the Macros model.
+
+  mq    <states> <colors> <spec> <slots> | prog          answers of ONE fresh macro object
+  mq2   <states> <colors> <spec> <slotsA> <slotsB> | prog  two independent objects
+  mrun  <states> <colors> <spec> <n> | prog              run through get_instr on the blank tape
+  mq_fix / mrun_fix                                       same with fixF3 = true   (driver only)
+  mpure <states> <colors> <spec> <slots> | prog          pureChain, fixF3 = true  (driver only)
+  mpure_f3                                                pureChain, fixF3 = false (driver only)
+
+  spec  = chain `kind:cells(,kind:cells)?`, innermost first, kind = block | back
+  slots = `s,c;s,c;...` or `-` for none
+-/
 import BB.Model.Instrs
+import BB.Model.Tape
+import BB.Model.Macros
 
 namespace BB.Driver.OpsMacros
 
-def handle (_op : String) (_args : List String) (_text : String) : Option String := none
+open BB.Macros
+
+def parseLevel (s : String) : Option (LogicKind × Nat) :=
+  match s.splitOn ":" with
+  | ["block", k] => k.toNat?.map fun n => (LogicKind.block, n)
+  | ["back", k] => k.toNat?.map fun n => (LogicKind.backsymbol, n)
+  | _ => none
+
+def parseSpec (s : String) : Option (List (LogicKind × Nat)) :=
+  (s.splitOn ",").mapM parseLevel
+
+def parseSlot (s : String) : Option Slot :=
+  match s.splitOn "," with
+  | [a, b] => match a.toNat?, b.toNat? with
+    | some x, some y => some (x, y)
+    | _, _ => none
+  | _ => none
+
+def parseSlots (s : String) : Option (List Slot) :=
+  if s == "-" || s == "" then some [] else (s.splitOn ";").mapM parseSlot
+
+def showAnswer : Option Instr → String
+  | none => "none"
+  | some (pr, sh, tr) => s!"{pr},{if sh then 1 else 0},{tr}"
+
+def showAnswers (l : List (Option Instr)) : String := ";".intercalate (l.map showAnswer)
+
+def showErr : Err → String
+  | .panic => "PANIC"
+  | .overflow => "limit:overflow"
+
+def showStop : Stop → String
+  | .undfnd (s, c) => s!"undfnd({s},{c})"
+  | .spnout => "spnout"
+  | .limit => "limit"
+
+def showRun (r : Res (List RunCfg × Stop)) : String :=
+  match r with
+  | .error e => showErr e
+  | .ok (tr, stop) =>
+    "/".intercalate (tr.map fun c => s!"{c.state};{c.tape.show};{c.steps}") ++ " => " ++ showStop stop
+
+def mkLevel {σ : Type} (inner : σ) (params : Nat × Nat) (lv : LogicKind × Nat) : MacroProg σ :=
+  match lv.1 with
+  | .block => makeBlockMacro inner params lv.2
+  | .backsymbol => makeBacksymbolMacro inner params lv.2
+
+/-- run `f` on a freshly built macro object of the given chain (innermost first, depth 1 or 2);
+    the callback receives the `GetFn` and the initial state. -/
+def withChain {α : Type} (p : Prog) (params : Nat × Nat) (fixF3 : Bool)
+    (spec : List (LogicKind × Nat))
+    (f : {σ : Type} → GetFn σ → σ → α) : Option α :=
+  match spec with
+  | [l1] => some (f (macroGet compGet fixF3) (mkLevel p params l1))
+  | [l1, l2] =>
+    some (f (macroGet (macroGet compGet fixF3) fixF3) (mkLevel (mkLevel p params l1) params l2))
+  | _ => none
+
+def answersOf {σ : Type} (slots : List Slot) (get : GetFn σ) (st : σ) : Res (List (Option Instr)) :=
+  match getInstrs get st slots with
+  | .error e => .error e
+  | .ok (as, _) => .ok as
+
+def runOf {σ : Type} (n : Nat) (get : GetFn σ) (st : σ) : Res (List RunCfg × Stop) :=
+  match runGetInstr get n st with
+  | .error e => .error e
+  | .ok (tr, stop, _) => .ok (tr, stop)
+
+def parseProg (text : String) : Option Prog :=
+  match Prog.fromStr text with
+  | .error _ => none
+  | .ok p => some p
+
+def doMq (fix : Bool) (st co spec slots text : String) : String :=
+  match parseProg text, st.toNat?, co.toNat?, parseSpec spec, parseSlots slots with
+  | none, _, _, _, _ => "PANIC"
+  | some p, some s, some c, some sp, some sl =>
+    match withChain p (s, c) fix sp (fun get m => answersOf sl get m) with
+    | none => "BAD-ARGS"
+    | some (.error e) => showErr e
+    | some (.ok as) => showAnswers as
+  | _, _, _, _, _ => "BAD-ARGS"
+
+def doMq2 (fix : Bool) (st co spec slotsA slotsB text : String) : String :=
+  match parseProg text, st.toNat?, co.toNat?, parseSpec spec, parseSlots slotsA, parseSlots slotsB with
+  | none, _, _, _, _, _ => "PANIC"
+  | some p, some s, some c, some sp, some sa, some sb =>
+    -- two objects never share state: the interleaving of the real run is immaterial here,
+    -- except that a panic of either one makes the whole line PANIC
+    match withChain p (s, c) fix sp (fun get m => answersOf sa get m),
+          withChain p (s, c) fix sp (fun get m => answersOf sb get m) with
+    | some (.ok a), some (.ok b) => showAnswers a ++ " # " ++ showAnswers b
+    | some (.error e), some (.ok _) => showErr e
+    | some (.ok _), some (.error e) => showErr e
+    | some (.error ea), some (.error eb) =>
+      -- the first failing query in the interleaved order A1,B1,A2,B2,... decides
+      let ia := match withChain p (s, c) fix sp (fun get m => firstErr sa get m 0) with
+        | some i => i | none => 0
+      let ib := match withChain p (s, c) fix sp (fun get m => firstErr sb get m 0) with
+        | some i => i | none => 0
+      if ia ≤ ib then showErr ea else showErr eb
+    | _, _ => "BAD-ARGS"
+  | _, _, _, _, _, _ => "BAD-ARGS"
+where
+  firstErr {σ : Type} (slots : List Slot) (get : GetFn σ) (m : σ) (i : Nat) : Nat :=
+    match slots with
+    | [] => i
+    | s :: rest =>
+      match get m s with
+      | .error _ => i
+      | .ok (_, m') => firstErr rest get m' (i + 1)
+
+def doMrun (fix : Bool) (st co spec n text : String) : String :=
+  match parseProg text, st.toNat?, co.toNat?, parseSpec spec, n.toNat? with
+  | none, _, _, _, _ => "PANIC"
+  | some p, some s, some c, some sp, some k =>
+    match withChain p (s, c) fix sp (fun get m => runOf k get m) with
+    | none => "BAD-ARGS"
+    | some r => showRun r
+  | _, _, _, _, _ => "BAD-ARGS"
+
+def doMpure (fix : Bool) (st co spec slots text : String) : String :=
+  match parseProg text, st.toNat?, co.toNat?, parseSpec spec, parseSlots slots with
+  | none, _, _, _, _ => "PANIC"
+  | some p, some s, some c, some sp, some sl =>
+    ";".intercalate (sl.map fun slot =>
+      match pureChain p (s, c) fix sp.reverse slot with
+      | .error e => showErr e
+      | .ok a => showAnswer a)
+  | _, _, _, _, _ => "BAD-ARGS"
+
+def handle (op : String) (args : List String) (text : String) : Option String :=
+  match op, args with
+  | "mq", [st, co, spec, slots] => some (doMq false st co spec slots text)
+  | "mq_fix", [st, co, spec, slots] => some (doMq true st co spec slots text)
+  | "mq2", [st, co, spec, a, b] => some (doMq2 false st co spec a b text)
+  | "mq2_fix", [st, co, spec, a, b] => some (doMq2 true st co spec a b text)
+  | "mrun", [st, co, spec, n] => some (doMrun false st co spec n text)
+  | "mrun_fix", [st, co, spec, n] => some (doMrun true st co spec n text)
+  | "mpure", [st, co, spec, slots] => some (doMpure true st co spec slots text)
+  | "mpure_f3", [st, co, spec, slots] => some (doMpure false st co spec slots text)
+  | _, _ => none
 
 end BB.Driver.OpsMacros
